@@ -55,6 +55,29 @@ func init() {
 			p := e.pick(st, iv.V).(Ptr)
 			return term.BoolC(p.Obj != 0)
 		}
+		I[vrtPath+".HashSum"] = func(e *Engine, st *State, th *Thread, fn *ssa.Function, a []Value, in *ssa.Call) Value {
+			kind := constStr(a[0], "hash kind")
+			sl := e.pick(st, a[1]).(Slice)
+			data := make([]*term.Term, sl.Len)
+			for i := range data {
+				data[i] = st.obj(sl.Obj).Cells[sl.Off+i].(*term.Term)
+			}
+			var cells []Value
+			if kind == "sha256" {
+				// injective encoding: length, then the bytes themselves
+				cells = append(cells, term.BVC(8, uint64(sl.Len)))
+				for _, d := range data {
+					cells = append(cells, d)
+				}
+			} else {
+				for i := 0; i < 4; i++ {
+					cells = append(cells, term.UF(fmt.Sprintf("%s_b%d_n%d", kind, i, sl.Len), term.BV(8), data...))
+				}
+			}
+			id := e.newObjID(st, th, "hash.Sum")
+			st.setObj(id, &Object{Kind: OMem, Cells: cells, Site: "hash.Sum", ep: st.ep})
+			return Slice{Obj: id, Len: len(cells), Cap: len(cells)}
+		}
 		I["bytes.Equal"] = func(e *Engine, st *State, th *Thread, fn *ssa.Function, a []Value, in *ssa.Call) Value {
 			x, y := e.pick(st, a[0]).(Slice), e.pick(st, a[1]).(Slice)
 			if x.Len != y.Len {
